@@ -769,7 +769,10 @@ impl JobList {
     /// `expected_state`.)
     ///
     /// Returns the index of the job updated. If there is no job for the given
-    /// process ID, the result is `None`.
+    /// process ID, the result is `None`. The result is also `None`, and nothing
+    /// is updated, if the process of the job has already terminated: the
+    /// operating system may reuse the process ID of an awaited process, so the
+    /// given state belongs to another process.
     ///
     /// When a job is suspended (i.e., `state` is `Stopped`), the job becomes
     /// the [current job](Self::current_job) and the old current job becomes the
@@ -787,6 +790,14 @@ impl JobList {
 
         // Update the job state.
         let job = &mut self.jobs[index];
+        if !job.state.is_alive() {
+            // A process that has terminated never changes its state again, so
+            // the given state is that of another process that has been assigned
+            // the same process ID after the job's process was awaited. That
+            // process is not a job; the job keeps its final state until it is
+            // reported and removed.
+            return None;
+        }
         let was_suspended = job.is_suspended();
         job.state = state;
         job.state_changed |= job.expected_state != Some(state);
